@@ -79,6 +79,28 @@ MUTS = [
  ('M32 categorical sensors aligned with the dump START times', 'katdal/sensordata.py',
   "sensor_data = sensor_to_categorical(sensor_data.timestamp, sensor_data.value,\n                                                timestamps, dump_period, **props)",
   "sensor_data = sensor_to_categorical(sensor_data.timestamp, sensor_data.value,\n                                                timestamps - 0.5 * dump_period, dump_period, **props)"),
+
+ # ---- round 3: v4 data sets opened with a preselection: data, freqs and timestamps name the same STORED coordinates
+ #      (seeded C01-5 and its neighbourhood)
+ ('M33 seeded C01-5: SpectralWindow.subrange merges the two floor divisions', 'PATCH', '/verif/seeded/C01-5/patch.diff', ''),
+ ('M34 subrange: centre channel of the sub-range rounded up', 'katdal/spectral_window.py',
+  "channel_shift = (first + last) // 2 - self.num_chans // 2", "channel_shift = (first + last + 1) // 2 - self.num_chans // 2"),
+ ('M35 subrange: shift from the centre of the sub-range length', 'katdal/spectral_window.py',
+  "channel_shift = (first + last) // 2 - self.num_chans // 2", "channel_shift = first + (last - first) // 2 - (self.num_chans - 1) // 2"),
+ ('M36 v4: preselected channel range not normalised (negative stop taken literally)', 'katdal/visdatav4.py',
+  "            start, stop, stride = preselect['channels'].indices(num_chans)\n            assert stride == 1    # Checked by TelstateDataSource\n",
+  "            start = preselect['channels'].start or 0\n            stop = preselect['channels'].stop or num_chans\n            if start < 0:\n                start += num_chans\n"),
+ ('M37 datasource: timestamps of a dump preselection start at the first dump of the capture', 'katdal/datasources.py',
+  "            timestamps = timestamps[preselect['dumps']]", "            timestamps = timestamps[:len(timestamps[preselect['dumps']])]"),
+ ('M38 datasource: chunk store sliced one channel late', 'katdal/datasources.py',
+  "                index = (preselect.get('dumps', np.s_[:]), preselect.get('channels', np.s_[:]))",
+  "                index = (preselect.get('dumps', np.s_[:]), preselect.get('channels', np.s_[:]))\n                if index[1].start:\n                    index = (index[0], slice(index[1].start + 1, index[1].stop + 1 if index[1].stop and index[1].stop > 0 and index[1].stop < chunk_info['correlator_data']['shape'][1] else index[1].stop))"),
+ ('M39 v4: spectral window of a channel preselection keeps the centre frequency of the whole band', 'katdal/visdatav4.py',
+  "            spw = spw.subrange(start, stop)", "            spw = SpectralWindow(centre_freq, channel_width, stop - start, product, sideband, band_map[band])"),
+ ('M40 SpectralWindow.channel_freqs: centre channel of an even window one too low', 'katdal/spectral_window.py',
+  "np.arange(self.num_chans) - self.num_chans // 2) / self.num_chans", "np.arange(self.num_chans) - (self.num_chans - 1) // 2) / self.num_chans"),
+ ('M41 v4: time_offset applied to the data timestamps twice when dumps are preselected', 'katdal/visdatav4.py',
+  "        source.timestamps += self.time_offset\n", "        source.timestamps += self.time_offset * (2 if getattr(source, 'capture_start', None) is not None and source.capture_start != source.timestamps[0] else 1)\n"),
 ]
 only = sys.argv[1:]
 res = []
